@@ -292,6 +292,43 @@ fn assemble_violation(rng: &mut Rng, fam: Family, rule: u64) -> Option<(&'static
             list.push(op(Op::Comp(n - 1, 2 * n - 1)));
             Some(("unshared-duplicate", pack(&list), w))
         }
+        3 if rng.chance(2, 3) => {
+            // k hidden nodes, a later one repeating an earlier one (the others in between, in random hash order)
+            use crate::ast::Dag;
+            let k = rng.urange(2, 7);
+            let mut d = Dag::default();
+            let ua = d.push(Op::Unit);
+            let l = d.push(Op::InjL(ua));
+            let p = d.push(Op::Pair(l, ua));
+            let mut branches: Vec<usize> = Vec::new();
+            let mut acc: Option<usize> = None;
+            for i in 0..k {
+                // distinct expressions of type 1*1 -> 1, sharing what they have in common
+                let b = match i {
+                    0 => d.push(Op::Unit),
+                    1 => d.push(Op::Take(ua)),
+                    2 => d.push(Op::Drop(ua)),
+                    _ => d.push(Op::Comp(branches[i - 2], ua)),
+                };
+                branches.push(b);
+                let mut hh = h(rng);
+                hh[0] = hh[0].wrapping_add(i as u8); // distinct with certainty
+                let a = d.push(Op::AssertL(b, hh));
+                let c = d.push(Op::Comp(p, a));
+                acc = Some(match acc {
+                    None => c,
+                    Some(prev) => d.push(Op::Comp(prev, c)),
+                });
+            }
+            let mut list = enc::list_of_dag(&d);
+            let hidden_at: Vec<usize> = list.iter().enumerate().filter(|(_, n)| matches!(n, ENode::Hidden(_))).map(|(i, _)| i).collect();
+            let m = rng.urange(1, hidden_at.len() - 1);
+            let j = rng.usize_below(m);
+            if let ENode::Hidden(x) = list[hidden_at[j]].clone() {
+                list[hidden_at[m]] = ENode::Hidden(x);
+            }
+            Some(("repeated-hidden", pack(&list), vec![]))
+        }
         3 => {
             // repeated hidden node (same CMR listed twice)
             let hh = h(rng);
@@ -497,6 +534,26 @@ pub fn run(ctx: &Ctx) {
                         case.count(&format!("depth.{}.accepted", fname));
                     }
                 }
+                Err((sig, d)) => return violated(sig, d),
+            }
+        }
+        Outcome::Held
+    });
+    // stress shapes (occurs-check seeds, doubling towers whose widths saturate, towers over free types followed by a
+    // clash, deep unary chains), written with the reference encoder: ill-typed ones must be refused, nothing may panic
+    ctx.run_sub("special-shapes-encoded", Plan::sample(t.pick(4_000, 200_000), 0.08), |rng, case| {
+        let kind = rng.below(crate::gen::SPECIAL_KINDS);
+        let depth = rng.urange(0, 70);
+        let dag = crate::gen::special_dag(rng, kind, depth);
+        let ill_typed = crate::ast::infer(&dag, true, None).is_err();
+        let p = bits::bytes_of_bits(&enc::encode_list(&enc::list_of_dag(&dag)));
+        case.desc = format!("special kind {} depth {} ({}) : program {}", kind, depth, if ill_typed { "ill-typed" } else { "well-typed" }, crate::runner::truncate(&bits::fmt_bytes(&p), 300));
+        case.hash = Some(hash_bytes(&p));
+        case.count(if ill_typed { "special.ill-typed" } else { "special.well-typed" });
+        for (dec, f) in [(Dec::Commit, Family::Core), (Dec::Redeem, Family::Core)] {
+            match judge(dec, f, &p, &[], if ill_typed { Some("ill-typed") } else { None }, case) {
+                Ok(true) => case.count("special.accepted"),
+                Ok(false) => {}
                 Err((sig, d)) => return violated(sig, d),
             }
         }
